@@ -38,6 +38,7 @@ MUTANTS = [
     ("C01", "figure document without closing brace", "encoding/unified_encoder.py", 'parts.append("\\n\\n}")', 'parts.append("\\n\\n")', "R01.1"),
     ("C01", "header None guard removed", "encoding/renderer.py", "            if header_rtf:\n                header_elements.extend(header_rtf)", "            header_elements.extend(header_rtf)", "R01.5"),
     ("C01", "size field back to int", "row.py", 'size: float = Field(default=9, description="Font size")', 'size: int = Field(default=9, description="Font size")', "R01.4"),
+    ("C01", "footer emptiness guard weakened to a None test", "services/encoding_service.py", "if footer_config is None or not footer_config.text:", "if footer_config is None or footer_config.text is None:", "R01.11"),
     # ---- C02
     ("C02", "cursor advanced by one row less", "encoding/unified_encoder.py", "            current_idx += rows\n", "            current_idx += rows - 1\n", "R02.1"),
     ("C02", "tail segment dropped when single row", "encoding/renderer.py", "if prev_row < len(page_df):", "if prev_row < len(page_df) - 1:", "R02.1"),
